@@ -1542,6 +1542,9 @@ def build(m, lang="java"):
     ok3 = S.invalid is None
     if not P.hint_ok and m.slot == "ret" and m.ctx in ("true-block", "false-block", "true-block-of-is-not"):
         ok3 = False     # the block of the branch is printed as Function0<type hint of its last statement>
+    if m.probe in ("assign:local", "assign:param-of-fn-type") and m.slot in (
+            "lambda-expr-body", "lambda-block-body", "nested-expr-body", "nested-block-body"):
+        ok3 = False     # the assigned local is declared outside the lambda that the slot builds: not effectively final
     if m.probe == "var:top-shadowed" and ("block" in m.ctx or "lambda" in m.ctx):
         ok3 = False     # declarations under true_block / false_block / a lambda are not found by get_namespaces_decls: `Main.`
     return w.build(), bool(P.valid and ok1 and ok2 and ok3)
